@@ -359,6 +359,12 @@ BUFR_Tables *bufr_extract_tables( BUFR_Dataset *dts )
 
    eb.description = NULL;
    eb.unit = NULL;
+/*
+ * a table update message does not carry af_nbits and ref_nbits, but every extracted entry
+ * receives a copy of the whole encoding
+ */
+   eb.descriptor = 0;
+   memset( &(eb.encoding), 0, sizeof(eb.encoding) );
 
    desc[0] = '\0';
    sscount = bufr_count_datasubset( dts );
